@@ -34,4 +34,26 @@ PROPS = {
             'input precondition: script length <= u32::MAX (scripts are read through a u32 length, proved in unit reader)',
         ],
     },
+    'C07': {
+        'units': ['utxo'],
+        'kani_quick': [],
+        'kani_thorough': [],
+        'trusted': [
+            'std HashMap<Vec<u8>,V> insert/remove == Map insert/remove on the key bytes (prelude/hashmap.inc, assumed contract of std)',
+            'UnspentCsvDump::on_complete (map iteration, format!, fs::rename): outside both verifiers -- the dump loop is UNCHECKED; '
+            'what is proved is that the map it iterates is exactly apply_blocks(range)',
+            'u32::to_le_bytes == vstd spec_u32_to_le_bytes (idiom I11); Vec::extend appends (idiom I7)',
+            'input precondition tx_wf: < 2^32 outputs per transaction; counters do not overflow u64',
+        ],
+    },
+    'C08': {
+        'units': ['utxo'],
+        'kani_quick': [],
+        'kani_thorough': [],
+        'trusted': [
+            'PARTIAL: only the UTXO-set maintenance of Balances::on_block is decided (same apply_txs as C07); the per-address '
+            'aggregation in Balances::on_complete (HashMap<&str,u64> entry API, iteration, +=) is outside both verifiers and UNCHECKED',
+            'std HashMap contract as in C07',
+        ],
+    },
 }
